@@ -591,5 +591,11 @@ func (lr *limitReader) Read(p []byte) (int, error) {
 	if lr.n < 0 {
 		lr.n = 0
 	}
+	if lr.n == 0 && n > 0 && (err == io.EOF || err == io.ErrUnexpectedEOF) {
+		// The byte beyond the limit arrived together with the end of the stream (the flate reader
+		// does that when the message ends with a BFINAL block): the message is too big all the
+		// same, so do not let this pass for its end. The next Read reports the limit.
+		err = nil
+	}
 	return n, err
 }
